@@ -364,6 +364,8 @@ def mk_rules(case):
             assert pool.events == [] and aborted(t, n0)
         elif cs == 4:
             # option in a signalling message: critical unknown -> Abort + close, elective -> ignored
+            if optnum >= 20 or not csm_first:
+                return                      # numbers 0..19 cover known (2, 4), unknown critical and unknown elective
             code = pick([CSM, PING, PONG, RELEASE, ABORT], sigcode)
             known = code == CSM and optnum in (2, 4)
             m = Message(code=code, _token=tok)
